@@ -13,7 +13,8 @@ def run(tier, seed, replay=None, pid="C04"):
     ck = vlib.Check(pid, tier, seed, "model_checking")
     binary = vlib.build_harness()
     kinds = ALL if pid == "C04" else BODY
-    c = dict(N=3, Segs="{0,1,2}", Kinds=kinds, MaxFaulty=1 if tier == "quick" else 2, FIXED=True, EXPORT=True, MaxAddrs=2 if pid == "C04" else 1)
+    c = dict(N=3, Segs="{0,1,2}", Kinds=kinds, MaxFaulty=1 if tier == "quick" else 2, FIXED=True, EXPORT=True, MaxAddrs=2 if pid == "C04" else 1,
+             PairKinds=('{"stall","s500"}' if tier == "quick" else ALL) if pid == "C04" else "{}")
     r = vlib.tlc("SyncFaults", (pid + ".cfg", vlib.cfg_text(c, INV)), timeout=7000, tag=pid.lower())
     ck.add_tlc("SyncFaults", r, "mode x trigger x segment size x fault kind x request index (%d faulty sync(s)) then a clean sync: store sound, "
                "failure leaves latest/notifications/cache as required, clean retry converges" % c["MaxFaulty"])
